@@ -115,6 +115,7 @@ int gc_gen(cs_t *cs, gcase_t *c, const runcfg_t *cfg, int prop) {
         else if (k < 19) c->dkind = DK_OVERMAX;
         else c->dkind = DK_EXACT;
     }
+    if (prop != 5 && c->dkind == DK_TOLDLIE) c->dkind = DK_EXACT; /* only C05 studies declarations the library is told are wrong */
     c->dmax = pick_size(cs, cap);
     if (r->du < r->w && cs_range(cs, 0, 3)) c->dmax -= c->dmax % (size_t)(r->w / r->du);
     c->dbos = (int)cs_range(cs, 0, 1);
@@ -132,7 +133,21 @@ int gc_gen(cs_t *cs, gcase_t *c, const runcfg_t *cfg, int prop) {
         c->dtrue = (size_t)cs_range(cs, 0, 16) * (size_t)r->w;
         if (c->dmax * (size_t)r->du <= c->dtrue) c->dmax = c->dtrue / (size_t)r->du + 1 + (size_t)cs_range(cs, 0, 3);
         break;
-    case DK_OVERMAX: {
+    case DK_OVERMAX:
+        if (prop != 5) {
+            /* truthful form only: the object really has dmax elements (possible for the string limits) */
+            size_t room = (AR_DATA - 64) / (size_t)r->du;
+            if (r->dmax_max + 1 <= room) {
+                c->dmax = r->dmax_max + 1 + (size_t)cs_range(cs, 0, 40);
+                if (c->dmax > room) c->dmax = room;
+                c->dtrue = c->dmax * (size_t)r->du;
+            } else {
+                c->dkind = DK_EXACT;
+                c->dtrue = c->dmax * (size_t)r->du;
+            }
+            break;
+        }
+        {
         static const size_t huge[] = {1, 2, 4096, (size_t)1 << 31, (size_t)-1 >> 1, (size_t)-1 - 1, (size_t)-1};
         long h = cs_range(cs, 0, 6);
         c->dtrue = (size_t)cs_range(cs, 1, 16) * (size_t)r->w;
